@@ -37,7 +37,7 @@ from fpy2.ast import fpyast as A
 from fpy2.function import Function
 
 PROP = 'C18'
-LEVEL = 'partial'
+LEVEL = 'proof'
 
 # --------------------------------------------------------------------------- plumbing
 
